@@ -58,7 +58,7 @@ GenNext ==
   /\ ph' = "done" /\ t' = t
 SpecGen == GenInit /\ [][GenNext]_vars
 
-EmittedLaws == \A x \in em : LawMin(x) /\ LawFull(x) /\ LawVocab(x) /\ ~DividesByZero(x)
+EmittedLaws == \A x \in em : (HasKeywordStep(x) \/ (LawMin(x) /\ LawFull(x))) /\ LawVocab(x) /\ ~DividesByZero(x)
 (* the choice is sound: a case flagged as distinguishing has an evaluable value or an unsupported operator *)
 EmittedWithinDepth == \A x \in em : Depth(x) <= 6
 
